@@ -382,6 +382,12 @@ def check_property(pid, tier, seed, only_kernel=None, only_job=None, keep=False,
             continue
         spec = load_spec(kn)
         js = [dict(j, kernel=kn) for j in spec.jobs(tier) if pid in j['props']]
+        if tier != 'quick':
+            # jobs that exist only beyond the quick tier are DEEP exploration under a time/memory budget: no verdict within the budget is reported as
+            # NOT-EXPLORED (never as a pass, never counted) and does not fail the run; jobs shared with the quick tier stay mandatory
+            qids = set(j['id'] for j in spec.jobs('quick'))
+            for j in js:
+                j['deep'] = j['id'] not in qids
         if only_job:
             js = [j for j in js if j['id'] == only_job]
         if js:
@@ -444,6 +450,7 @@ def check_property(pid, tier, seed, only_kernel=None, only_job=None, keep=False,
     violations = []
     broken = []
     undecided = []
+    not_explored = []
     samples = []
     obligations = 0
     discharged = 0
@@ -457,18 +464,20 @@ def check_property(pid, tier, seed, only_kernel=None, only_job=None, keep=False,
         if wit is not None:
             wf = [f for f in wit.get('failed', []) if f['description'].startswith('WITNESS')]
             if wit['status'] == 'undecided':
-                undecided.append(dict(job=jid, what='witness twin', why=wit.get('why'), bound=j.get('bound')))
+                (not_explored if j.get('deep') else undecided).append(dict(job=jid, what='witness twin', why=wit.get('why'), bound=j.get('bound')))
             elif not wf:
                 # unreachable witness = vacuous harness; only trust that if the main run itself is clean
                 broken.append('%s: vacuity witness NOT reached (%s %s)' % (jid, wit['status'], wit.get('why', '')))
             elif len(samples) < 12 and wf[0].get('inputs'):
                 samples.append(dict(job=jid, witness_input=wf[0]['inputs']))
-        if main['status'] == 'ok':
+        if main['status'] == 'ok' and wit is not None and wit['status'] == 'undecided':
+            pass   # non-vacuity of this job was not established: its assertions are not counted (the job is already listed as undecided / not explored)
+        elif main['status'] == 'ok':
             obligations += main['props']
             discharged += main['props']
             decided_jobs += 1
         elif main['status'] == 'undecided':
-            undecided.append(dict(job=jid, what='main', why=main.get('why'), bound=j.get('bound')))
+            (not_explored if j.get('deep') else undecided).append(dict(job=jid, what='main', why=main.get('why'), bound=j.get('bound')))
         elif main['status'] == 'error':
             broken.append('%s: %s' % (jid, main.get('why')))
         else:
@@ -538,6 +547,8 @@ def check_property(pid, tier, seed, only_kernel=None, only_job=None, keep=False,
             stubs={kn: getattr(specs[kn], 'STUB_NOTES', []) for kn in specs},
             selftests=selftests,
             not_decided=undecided,
+            not_explored=not_explored,
+            not_explored_rule='deep jobs (present only in the thorough tier) that gave no verdict within their time/memory budget: nothing is claimed for them, they are not counted in obligations/discharged, and they do not fail the run',
             solver_wall_s=round(solver_s, 1),
             known_findings=[l for l in kf_lines],
         ),
@@ -553,8 +564,10 @@ def check_property(pid, tier, seed, only_kernel=None, only_job=None, keep=False,
         shutil.rmtree(BUILD, ignore_errors=True)
     for l in vio_lines:
         print(l, flush=True)
-    log('[%s %s] jobs=%d decided=%d assertions=%d discharged=%d undecided=%d broken=%d violations=%d wall=%.0fs'
-        % (pid, tier, len(results), decided_jobs, obligations, discharged, len(undecided), len(broken), len(violations), time.time() - t0))
+    log('[%s %s] jobs=%d decided=%d assertions=%d discharged=%d undecided=%d not_explored=%d broken=%d violations=%d wall=%.0fs'
+        % (pid, tier, len(results), decided_jobs, obligations, discharged, len(undecided), len(not_explored), len(broken), len(violations), time.time() - t0))
+    for u in not_explored:
+        print('NOT-EXPLORED (deep job, no verdict within budget, nothing claimed): %s' % json.dumps(u), flush=True)
     if violations:
         return 1
     broken = selftest_failures + broken
